@@ -6,6 +6,7 @@ import (
 	"fmt"
 	"os"
 	"runtime/debug"
+	"strconv"
 	"strings"
 	"testing"
 	"time"
@@ -147,8 +148,10 @@ func hasSig(out *Outcome, prop, sig string) bool {
 // a candidate only while the same violation signature persists.
 func Shrink(t *testing.T, e Engine, p *Plan, prop, sig string, maxExec int) (*Plan, int) {
 	execs := 0
+	// shrinking is bounded by executions and by wall time (slow plans)
+	stopAt := time.Now().Add(shrinkWall())
 	try := func(q *Plan) bool {
-		if execs >= maxExec {
+		if execs >= maxExec || time.Now().After(stopAt) {
 			return false
 		}
 		execs++
@@ -225,4 +228,14 @@ func trimStack(b []byte) string {
 		s = s[:2500]
 	}
 	return s
+}
+
+// shrinkWall is the wall-clock budget of one shrink (VERIF_SHRINK_S, default 120 s).
+func shrinkWall() time.Duration {
+	if v := os.Getenv("VERIF_SHRINK_S"); v != "" {
+		if n, err := strconv.Atoi(v); err == nil && n > 0 {
+			return time.Duration(n) * time.Second
+		}
+	}
+	return 120 * time.Second
 }
